@@ -290,7 +290,7 @@ def gen_cases(tier, seed):
     rng = random.Random(seed * 7919 + 11)
     cases = []
     names = sorted(TEMPLATES)
-    nsched = 120 if tier == "quick" else 2500
+    nsched = 120 if tier == "quick" else 40000
     errs = [errno.EADDRINUSE, errno.EADDRINUSE, errno.EACCES, errno.EMFILE]
     for c in range(nsched):
         n = rng.choice([0, 1, 1, 2, 2, 2, 3, 3])
